@@ -3,9 +3,11 @@ package props
 import (
 	"bytes"
 	"fmt"
+	"net"
 	"sync"
 	"sync/atomic"
 	"time"
+	"verifharness/sscodec"
 
 	"verifharness/lab"
 	"verifharness/vk"
@@ -183,6 +185,7 @@ func c02Run(c *vk.Ctx) {
 	smu.Lock()
 	stopped := stop
 	smu.Unlock()
+	var sbad atomic.Bool
 	// handshake storm: many short connections whose handshakes overlap (32 at a time) - whatever
 	// one connection's key search buffers must stay its own until its stream has consumed it
 	if !stopped {
@@ -198,7 +201,6 @@ func c02Run(c *vk.Ctx) {
 		}
 		var swg sync.WaitGroup
 		swork := make(chan int)
-		var sbad atomic.Bool
 		for w := 0; w < 32; w++ {
 			swg.Add(1)
 			wr := c.SubRng("c02storm", w)
@@ -226,6 +228,90 @@ func c02Run(c *vk.Ctx) {
 		swg.Wait()
 		c.Eval("storm|32-overlapping-handshakes")
 	}
+	// history: 140..220 connections whose target cannot be reached (nothing listens there), then
+	// clean exchanges: earlier failures of OTHER connections do not cost this one anything
+	if !stopped && !sbad.Load() {
+		nFail := 140 + r.Intn(80)
+		var fwg sync.WaitGroup
+		for w := 0; w < 16; w++ {
+			fwg.Add(1)
+			fr := c.SubRng("c02fail", w)
+			go func(w int) {
+				defer fwg.Done()
+				for i := w; i < nFail; i += 16 {
+					k := keys[fr.Intn(len(keys))]
+					cl, err := DialSS(env.RigRec.Addr4(), randSrc4(fr), k, randBytes(fr, k.Codec().C.SaltSize))
+					if err != nil {
+						continue
+					}
+					cl.WriteRaw(cl.Enc.Encode(append(sscodec.AddrIP(caseIP4(nextID(c.Batch)&0xffffff), 9, false), 'f'), nil)) // port 9: refused
+					cl.Conn.CloseWrite()
+					cl.ReadAllPlain(time.Now().Add(relayB))
+					cl.Conn.Close()
+				}
+			}(w)
+		}
+		fwg.Wait()
+		for i := 0; i < 6; i++ {
+			rc := genRelayCase(r, c.Batch, keys, false)
+			rc.Raw, rc.SlowMs, rc.SlowRead, rc.CloseLn, rc.TailDelayMs = false, 0, 0, false, 0
+			o := runRelayCase(env, r, rc)
+			if !judgeRelay(c, "C02", rc, o) {
+				return
+			}
+		}
+		c.Count("exchanges_after_many_failed_dials", 6)
+		c.Max("max_failed_dials_before_an_exchange", int64(nFail))
+		c.Eval("history|failed-dials-then-clean-exchanges")
+		// one host name, two ports (two services on one host): each connection reaches the port it asked for
+		hub2 := StartTargetHub(0)
+		defer hub2.Close()
+		for rep := 0; rep < 3; rep++ {
+			caseN := nextID(c.Batch)
+			ip := caseIP4(caseN & 0xffffff)
+			name := fmt.Sprintf("two-ports-%x.lab", caseN&0xffffff)
+			env.setName(name, []net.IP{ip})
+			for _, h := range []struct {
+				hub *TargetHub
+				tag byte
+			}{{env.Hub, 'A'}, {hub2, 'B'}} {
+				tag := h.tag
+				h.hub.On(ip.String(), func(tc *TargetConn) {
+					buf := make([]byte, 64)
+					tc.SetReadDeadline(time.Now().Add(relayB))
+					n, _ := tc.Read(buf)
+					tc.Write(append([]byte{tag}, buf[:n]...))
+					tc.Close()
+				})
+			}
+			k := keys[r.Intn(len(keys))]
+			order := []struct {
+				port int
+				tag  byte
+			}{{env.Hub.Port, 'A'}, {hub2.Port, 'B'}}
+			if rep%2 == 1 {
+				order[0], order[1] = order[1], order[0]
+			}
+			for _, o := range order {
+				cl, err := DialSS(env.RigRec.Addr4(), randSrc4(r), k, randBytes(r, k.Codec().C.SaltSize))
+				if err != nil {
+					continue
+				}
+				msg := putU64(nextID(c.Batch))
+				cl.WriteRaw(cl.Enc.Encode(append(sscodec.AddrDomain(name, o.port), msg...), nil))
+				got, _ := cl.ReadAllPlain(time.Now().Add(relayB))
+				cl.Conn.Close()
+				c.Eval("one-name-two-ports")
+				if !bytes.Equal(got, append([]byte{o.tag}, msg...)) {
+					c.Violation("C02/connection-reached-another-port-of-the-target-host", map[string]any{"host_name": name, "port_requested": o.port, "answered_by_service": string(got[:min(1, len(got))]), "expected_service": string(o.tag), "reply_len": len(got)})
+					return
+				}
+			}
+			env.Hub.Off(ip.String())
+			hub2.Off(ip.String())
+			c.Count("one_name_two_ports_checked", 1)
+		}
+	}
 	if u := env.Hub.UnexpectedList(); len(u) > 0 {
 		c.Violation("C02/unexpected-target-connection", u[:min(len(u), 5)])
 	}
@@ -252,6 +338,8 @@ func init() {
 			c.Require("storm_exchanges_intact")
 			c.Require("mode_target-done-early")
 			c.Require("long_pauses_after_a_half_close")
+			c.Require("exchanges_after_many_failed_dials")
+			c.Require("one_name_two_ports_checked")
 			c02Run(c)
 		},
 	})
